@@ -170,8 +170,14 @@ def run_tree_case(ctx):
     tkind = int(rng.integers(0, 7))
     kwargs = {}
     maxb = max(max(ranks), 1)
+
+    def draw_limit():
+        # around the true ranks; half of the time strictly below the largest one so that weight is really discarded
+        if maxb >= 2 and rng.random() < 0.5:
+            return int(rng.integers(1, maxb))
+        return int(rng.integers(1, max(2, maxb + 2)))
     if tkind == 0:
-        M = int(rng.integers(1, max(2, maxb + 2)))
+        M = draw_limit()
         t.compress_config = CompressConfig(CompressCriteria.fixed, max_bonddim=M)
         limits = [M] * n
         ctx.cls("criteria:fixed")
@@ -185,7 +191,7 @@ def run_tree_case(ctx):
         ctx.cls("criteria:fixed", "per-bond-limits")
         tgt = {"fixed-per-bond": limits}
     elif tkind == 2:
-        M = int(rng.integers(1, max(2, maxb + 2)))
+        M = draw_limit()
         kwargs = {"temp_m_trunc": M}
         limits = [M] * n
         ctx.cls("temp_m_trunc:scalar")
@@ -205,7 +211,7 @@ def run_tree_case(ctx):
             ctx.cls("criteria:threshold")
             tgt = {"threshold": thr}
         else:
-            M = int(rng.integers(1, max(2, maxb + 2)))
+            M = draw_limit()
             t.compress_config = CompressConfig(CompressCriteria.both, threshold=thr, max_bonddim=M)
             limits = [M] * n
             ctx.cls("criteria:both")
